@@ -16,7 +16,9 @@ EXPLANATION = ("r1: complete table of the output-type wrapper (ir::indexed::get_
                "before and popped after the recursive indexing call, and is `the fold's source vertex is optional`. "
                "r4: fold counts are declared Int! (then wrapped like any output at the fold's source vertex) and "
                "produced as Uint64 of the element count, null only when the fold does not exist. r5: the empty-fold "
-               "default walker in the engine and the indexer read the same three output sources.")
+               "default walker in the engine and the indexer read the same three output sources. r6: decision table of "
+               "DataContext::ensure_suspended / ensure_unsuspended over every (active vertex?, suspension stack) shape: "
+               "suspending is idempotent, un-suspending restores the last saved vertex, other fields untouched.")
 ASSUMPTIONS = ["validity of adapter-supplied property values is the adapter's contract", "Type model as in C17"]
 
 IDX = "trustfall_core::ir::indexed::"
